@@ -559,4 +559,25 @@ theorem miDiscrete_mismatch_raises (v1 v2 : List ℝ) (base : ℝ) (h : v1.lengt
     miDiscrete v1 v2 base = .error .dimension := by
   simp [miDiscrete, h]
 
+/-! ## weighted moments -/
+
+/-- weighted `cov`: with `wn` the weights actually used (`w/Σw` when normalising), the weighted
+means `m₁ = Σ v1ᵢ·wnᵢ`, `m₂` and `x = Σ (v1ᵢ-m₁)(v2ᵢ-m₂)·wnᵢ`, the answer is `x`, divided by
+`1 - Σ wnᵢ²` for the unbiased estimate -/
+theorem covW_spec (v1 v2 w : List ℝ) (u nw : Bool) (h1 : v1.length = w.length) (h2 : v2.length = w.length) :
+    covW v1 v2 w u nw = .ok (
+      let wn := normW' w nw
+      let m1 := (List.zipWith (· * ·) v1 wn).sum
+      let m2 := (List.zipWith (· * ·) v2 wn).sum
+      let x := (zipWith3 (fun a b c => a * b * c) (v1.map (· - m1)) (v2.map (· - m2)) wn).sum
+      if u then x / (1 - (wn.map (fun a => a * a)).sum) else x) := covW_eq v1 v2 w u nw h1 h2
+
+/-- weighted Cauchy–Schwarz: with non-negative weights and positive weighted variances the
+weighted correlation lies in `[-1,1]` -/
+theorem corW_sq_le_one (v1 v2 w : List ℝ) (nw : Bool) (h1 : v1.length = w.length) (h2 : v2.length = w.length)
+    (hw : ∀ c ∈ normW' w nw, 0 ≤ c)
+    (hA : ∃ a, varW v1 (normW' w nw) false false = .ok a ∧ 0 < a)
+    (hB : ∃ b, varW v2 (normW' w nw) false false = .ok b ∧ 0 < b) :
+    ∃ r, corW v1 v2 w nw = .ok r ∧ r ^ 2 ≤ 1 := corW_sq_le_one' v1 v2 w nw h1 h2 hw hA hB
+
 end Bpp.C07
